@@ -1459,6 +1459,10 @@ class C05(Prop):
             decls = case.split()[9:]
             if i < len(decls) and decls[i].split(",")[1] == "0":
                 return "unbounded-array-not-bound"
+        # Metal renames a resource whose name is reserved there (fragment -> fragment_0); the metadata keeps the declared name
+        m = re.match(r"argument buffer member (\w+?)_(\d+) has no metadata entry", why)
+        if m and case.split()[0] == "Msl" and case.split()[3].endswith("+R") and m.group(1) in c05ref.RENAMED:
+            return "msl-metadata-keeps-the-declared-name-of-a-renamed-resource"
         return None
 
     def nontrivial(self, case, impl):
@@ -1495,6 +1499,17 @@ class C18(Prop):
             return "targets disagree: " + impl[9:400]
         if impl.startswith("PANIC") or impl.startswith("TIMEOUT"):
             return "compile aborted: " + impl[:200]
+        return None
+
+    def known_class(self, case, impl, model):
+        # a resource whose name one target reserves: the HLSL targets report the generated name, Metal the declared one
+        m = re.match(r"DISAGREE bindings (\[.*?\]) \((\w+)\) vs (\[.*?\]) \((\w+)\)", impl)
+        if m and "+R" in case:
+            import c05ref
+            def norm(txt):
+                return re.sub(r'"(%s)_\d+"' % "|".join(c05ref.RENAMED), r'"\1"', txt)
+            if m.group(1) != m.group(3) and norm(m.group(1)) == norm(m.group(3)):
+                return "reserved-word-resource-name-differs-across-targets"
         return None
 
     def nontrivial(self, case, impl):
@@ -1544,6 +1559,8 @@ class C04(Prop):
             line = impl.split(" | ", 1)[1] if " | " in impl else ""
             if re.search(r"<[^;<>]*>\s*\(", line):
                 return "comparison-chain-read-as-template-arguments"
+            if re.search(r"redefinition of '(\w+)' \| template<(?:typename \w+, )*typename \1(?:, typename \w+)*, typename \1\b", impl) or re.search(r"redefinition of '(\w+)' \| template<typename \1, typename \1", impl):
+                return "template-parameters-named-after-one-struct-twice"
             src = self._source(case)
             if src and "no matching function for call to" in impl and re.search(r"\b\w+\s*\([^(){};]*=[^(){};]*\)\s*;", src):
                 return "default-argument-on-forward-declaration"
@@ -1726,12 +1743,13 @@ class C03(Prop):
                 "arity-more", "arity-less", "arg-struct", "arg-void", "ret-struct", "ret-void-value", "ret-missing-value", "const-member-write", "const-param-write",
                 "const-array-write", "swizzle-repeat-write", "cbuffer-write", "static-const-global-write", "out-other-scalar", "out-other-vector", "inout-other-vector",
                 "out-wider-vector", "out-member-of-const", "out-swizzle-repeat", "out-enum-for-int",
-                "const-nested-member-write", "const-nested-array-write", "const-nested-incr", "out-nested-member-of-const", "cbuffer-nested-write", "const-array-of-struct-write"}
+                "const-nested-member-write", "const-nested-array-write", "const-nested-incr", "out-nested-member-of-const", "cbuffer-nested-write", "const-array-of-struct-write",
+                "mswz-row-out-of-range", "mswz-col-out-of-range", "mswz-pair-out-of-range", "mswz-out-arg-out-of-range", "swz-out-of-range"}
     assumptions = [
         "theorems are about the checker `wt` (coq/model/IRType.v), the specification of well-typed IR: a passed check means every node's type is the one derived bottom-up, every operand has exactly the required type, writes go to lvalues whose path goes through nothing const, calls match their signature, returns and initialisers match; there is no model of the elaborator, so 'every accepted program passes' is observed (the extracted checker runs on the IR of every program the harness type checks), not proved",
         "each node of the dump carries the type Expression::get_type answers (its assertions are caught and reported as IRFAULT); nodes the checker does not model (object members, matrix swizzles, mesh / make-signed intrinsics) are taken at that type, their operands are still checked",
         "conditions of if / while / for are not required to be bool and aggregate initialisers are only checked element by element (the property's list does not name them)",
-        "rejection: a well-typed generated program plus one function with a single injected violation must be rejected; 36 violation kinds are demanded (writes to const / non-lvalues in every form, out / inout arguments, arity, unconvertible arguments, wrong returns), 11 further kinds are counted only",
+        "rejection: a well-typed generated program plus one function with a single injected violation must be rejected; 41 violation kinds are demanded (writes to const / non-lvalues in every form, out / inout arguments, arity, unconvertible arguments, wrong returns), 11 further kinds are counted only",
     ]
 
     def kind(self, case):
